@@ -251,7 +251,7 @@ func (pr *ParquetReader) ReadSqlRow(ctx context.Context) (sql.Row, error) {
 				}
 			}
 
-			if col.Kind == types.DecimalKind {
+			if val != nil && col.Kind == types.DecimalKind {
 				prec, scale := col.TypeInfo.ToSqlType().(gmstypes.DecimalType_).Precision(), col.TypeInfo.ToSqlType().(gmstypes.DecimalType_).Scale()
 				val = DecimalByteArrayToString([]byte(val.(string)), int(prec), int(scale))
 			}
